@@ -4,6 +4,35 @@ from .build import AnalysisBroken
 from .report import Check
 
 
+def _resilient_run(mod, ck):
+    """Run the property module's run(ck) with every rule call (a bare call statement) guarded on its own: a rule whose anchor has
+    vanished (AnalysisBroken) is recorded as analysis-incomplete and the remaining rules still run, so that a violation another rule
+    finds is not hidden behind it.  finish() lets violations take precedence (exit 1) over incompleteness (exit 2)."""
+    import ast, inspect
+    try:
+        tree = ast.parse(inspect.getsource(mod))
+    except (OSError, SyntaxError):
+        return mod.run(ck)
+    for node in tree.body:
+        if isinstance(node, ast.FunctionDef) and node.name == 'run':
+            body = []
+            for st in node.body:
+                if isinstance(st, ast.Expr) and isinstance(st.value, ast.Call):
+                    handler = ast.ExceptHandler(
+                        type=ast.Name(id='AnalysisBroken', ctx=ast.Load()), name='_e',
+                        body=[ast.Expr(ast.Call(func=ast.Attribute(value=ast.Attribute(value=ast.Name(id=node.args.args[0].arg, ctx=ast.Load()), attr='broken', ctx=ast.Load()), attr='append', ctx=ast.Load()),
+                                                args=[ast.Call(func=ast.Name(id='str', ctx=ast.Load()), args=[ast.Name(id='_e', ctx=ast.Load())], keywords=[])], keywords=[]))])
+                    body.append(ast.Try(body=[st], handlers=[handler], orelse=[], finalbody=[]))
+                else:
+                    body.append(st)
+            node.body = body
+    ast.fix_missing_locations(tree)
+    ns = dict(mod.__dict__)
+    ns['AnalysisBroken'] = AnalysisBroken
+    exec(compile(tree, mod.__file__, 'exec'), ns)
+    return ns['run'](ck)
+
+
 def main(argv):
     if len(argv) < 2:
         print('usage: check <property id> [--tier quick|thorough] [--replay file]'); return 2
@@ -25,7 +54,7 @@ def main(argv):
     ck = Check(pid, tier, replay)
     print('check %s tier=%s repo=%s' % (pid, tier, os.environ.get('PXV_REPO', '/repo')))
     try:
-        mod.run(ck)
+        _resilient_run(mod, ck)
         if tier == 'thorough' and replay is None and not os.environ.get('PXV_NO_EVIDENCE'):
             from . import selftest
             res = selftest.run(pid, units=set(ck.units))
